@@ -1,20 +1,19 @@
 #!/bin/bash
-# seed_matrix.sh <name>... — for each seed (seeded/<name>/patch.diff or /tmp/wt-<name>-out/patch.diff):
-# apply to /repo, run every property once (mscheck -all), undo. Prints: seed, own property
-# alarmed?, all alarmed properties, distinct rules that fired.
+# seed_matrix.sh <name>... — for each seed (seeded/<name>/patch[_rebased_on_fixes].diff or
+# /tmp/wt-<name>-out/patch.diff): apply IN MEMORY, run every property once (mscheck -all -patch).
+# Prints: seed, whether its own property alarmed, all alarmed properties, the rules that fired.
 export GOFLAGS=-mod=mod GOPROXY=off GOSUMDB=off GOTOOLCHAIN=local; unset GOWORK
-for n in "$@"; do
+one() {
+  n=$1
   P=/verif/seeded/$n/patch.diff; [ -f $P ] || P=/tmp/wt-$n-out/patch.diff
   [ -f /verif/seeded/$n/patch_rebased_on_fixes.diff ] && P=/verif/seeded/$n/patch_rebased_on_fixes.diff
   own=$(echo $n | grep -o '^C[0-9]*')
-  cd /repo
-  if git apply --check "$P" 2>/dev/null; then git apply "$P"
-  elif patch -p1 --dry-run -F3 -s < "$P" >/dev/null 2>&1; then patch -p1 -F3 -s < "$P"
-  else echo "$n: patch does not apply"; continue; fi
-  out=$(/verif/bin/mscheck -all -verif /verif 2>&1)
-  git checkout -q -- . && git clean -fdq -e '*.orig' && find . -name '*.orig' -delete
+  out=$(/verif/bin/mscheck -all -patch $P -verif /verif 2>&1)
+  if echo "$out" | grep -q "patch not applicable"; then printf "%-6s N/A   %s\n" $n "$(echo "$out" | grep 'not applicable' | cut -c1-120)"; return; fi
   props=$(echo "$out" | grep "^ALL summary" | sed 's/.*alarmed: //')
   rules=$(echo "$out" | grep -E "^ALL C" | awk '{print $4}' | sort -u | tr -d ':' | tr '\n' ' ')
   hit=MISS; echo ",$props," | grep -q ",$own," && hit=OWN; [ $hit = MISS ] && [ -n "$props" ] && hit=OTHER
   printf "%-6s %-5s props=[%s] rules=[%s]\n" $n $hit "$props" "$rules"
-done
+}
+export -f one
+printf "%s\n" "$@" | xargs -P 6 -I{} bash -c 'one {}' | sort
